@@ -35,6 +35,19 @@ Theorem C17_shortcuts_never_longer : forall (St : Type) (mv : St -> St -> bool) 
   forall ijs p d, (plen St dist (shortcuts St mv p ijs d) <= plen St dist p)%R.
 Proof. exact shortcuts_never_longer. Qed.
 
+(* PathSimplifier::reduceVertices as a whole (PathModel.reduce_vertices: both counters, the draw of the vertex pair from two
+   uniform variates, the repair of pairs closer than two apart, the whole-path attempt first): for every path, validator,
+   rangeRatio >= 0, step limits and every stream of variates in [0,1) the result is a sequence of accepted vertex
+   shortcuts of the input — so the two theorems above apply to it — and a false return value means an unchanged path *)
+Theorem C17_reduceVertices_is_a_sequence_of_validated_shortcuts :
+  forall (St : Type) (mv : St -> St -> bool) (range_of : Z -> Z), (forall c, 0 <= range_of c) ->
+  forall p maxSteps maxEmpty tape d, Forall uok tape ->
+  exists ijs, fst (reduce_vertices St mv range_of p maxSteps maxEmpty tape d) = shortcuts St mv p ijs d /\
+    (snd (reduce_vertices St mv range_of p maxSteps maxEmpty tape d) = false ->
+     fst (reduce_vertices St mv range_of p maxSteps maxEmpty tape d) = p).
+Proof. exact reduce_vertices_is_shortcuts. Qed.
+
+Print Assumptions C17_reduceVertices_is_a_sequence_of_validated_shortcuts.
 Print Assumptions C17_interpolate_exact_count.
 Print Assumptions C17_interpolate_noop_when_fewer_requested.
 Print Assumptions C17_densified_path_keeps_vertices_in_order.
@@ -49,3 +62,9 @@ Example C17_nonvacuous :
   originals (layout 0 [3; 0; 3]) = [0; 1; 2; 3]%nat /\
   shortcuts Z (fun a b => negb (b =? 9)) [1; 2; 3; 4; 9; 5] [(0%nat, 2%nat); (1%nat, 3%nat); (1%nat, 4%nat)] 0 = [1; 3; 5].
 Proof. vm_compute. repeat split. Qed.
+(* reduceVertices on 8 vertices where only (0,3), (3,6) and (2,7) are accepted; rangeRatio 1/2; two variate streams *)
+Example C17_reduce_nonvacuous :
+  rv_run 8 0 0 1 2 [(0, 3); (3, 6); (2, 7)]%nat [(0, 64); (40, 64); (30, 64); (60, 64); (16, 64); (63, 64); (1, 64); (2, 64)] = ([0; 3; 4; 5; 6; 7]%nat, true) /\
+  rv_run 8 0 0 1 2 [(0, 3); (3, 6); (2, 7)]%nat [(60, 64); (1, 64); (60, 64); (1, 64)] = ([0; 1; 2; 7]%nat, true) /\
+  rv_run 8 0 0 1 2 []%nat [(60, 64); (1, 64); (60, 64); (1, 64)] = ([0; 1; 2; 3; 4; 5; 6; 7]%nat, false).
+Proof. vm_compute. repeat split; reflexivity. Qed.
